@@ -2,6 +2,7 @@
 import itertools
 import json
 import logging
+import os
 import re
 import warnings
 
@@ -32,7 +33,12 @@ RULE = ("candidate lists of 0-4 variants (ECU variants with 0-3 patterns, base v
         "written in the document, the matcher the loaded objects; 'xml-text': blank padded fixed-length ASCII identification "
         "texts in structures and fields, expected values derived from the decoded responses, with and without white space at "
         "their ends -- white space in an expected value is significant; 'xml-float': IEEE doubles / singles, an integer scaled to a float, "
-        "floats in a structure and in the items of a field, decoded by the real decoder). Service short names (all builders) range over the legal ODX "
+        "floats in a structure and in the items of a field, decoded by the real decoder; 'xml-bytes': byte fields of variable length -- length "
+        "prefixed, in a structure, in the items of a field, the rest of the message (MIN-MAX-LENGTH / END-OF-PDU) -- whose values differ only in "
+        "their length: zero bytes at either end, prefixes, empty and all-zero byte fields). Byte field leaves (all builders) come from a pool closed under "
+        "appending / prepending a zero byte; 15-35 % of the expected values derived from a decoded leaf are an *alias* of it: a text that a coarser "
+        "equality would accept (other length: zero bytes / digits at either end, prefix, extension; other notation of the same number: decimal, hex, "
+        "0x, sign, as a float; other byte order; other case where case matters; python's str() of the value). Service short names (all builders) range over the legal ODX "
         "short names: digit first, python keywords, names of list / NamedItemList attributes, leading underscores, `_<n>` suffixes, "
         "names differing only in case, prefixes of each other, 128 characters; layers with two or three such confusable names in "
         "either order; references to a name that is merely similar to a service of the layer (malformed streams: must be "
@@ -131,7 +137,7 @@ def gen_leaf(rng, allow_float):
     if r < 0.58:
         return ["i", str(rng.choice([0, 1, 255, -1, 26, 7]))]
     if r < 0.70:
-        return [rng.choice("yY"), rng.choice(["ab", "00ff", "", "ab12", "1a"])]
+        return [rng.choice("yY"), rng.choice(BYTE_VALUES)]
     if r < 0.79:
         return ["dtc", rng.choice([26, 0, 0x123456, 255])]
     if r < 0.85:
@@ -154,6 +160,62 @@ def render_expected(rng, leaf):
     if t == "f":
         return render_float_expected(rng, v)
     return str(v)
+
+
+# ---- byte fields. "Equal" for a byte field is: its hex representation is the expected text, case-insensitively -- so the LENGTH is part of
+# the value (a1, a100 and 00a1 are three different part numbers). The pool is closed under appending / prepending a zero byte and under
+# taking a prefix, so that values which a padding / numeric / prefix comparison would identify meet in one configuration.
+BYTE_VALUES = ["ab", "ab00", "ab0000", "00ab", "ab12", "ab1200", "00ff", "ff", "ff00", "1a", "", "00", "0000"]
+GEN_STATS = {}
+
+
+def _stat(kind, what):
+    GEN_STATS[(kind, what)] = GEN_STATS.get((kind, what), 0) + 1
+
+
+def alias_expected(rng, leaf):
+    """a text that some COARSER notion of equality than the property's would take for the value of the leaf (and the property's, as a
+    rule, does not): another length (zero bytes / zero digits at either end, a prefix, an extension), another notation of the same number
+    (decimal / hex / with 0x / with sign / as a float), another byte order, another case where case matters, the text of another type.
+    Whether it IS equal is decided by the reference, not here."""
+    t = leaf[0]
+    v = L.py_of(leaf)
+    if t in "yY":
+        h = v.hex()
+        alts = [("trailing-zero-bytes+", h + "00"), ("trailing-zero-bytes+", h + "0000"), ("leading-zero-bytes+", "00" + h), ("extension", h + "ff"),
+                ("0x-prefix", "0x" + h), ("0x-prefix", "0X" + h.upper()), ("python-str", str(bytes(v))), ("odd-length", h + "0"), ("odd-length", "0" + h)]
+        if h.endswith("00"):
+            alts += [("trailing-zero-bytes-", h[:-2]), ("trailing-zero-bytes-", re.sub("(00)+$", "", h))] * 2
+        if h.startswith("00"):
+            alts += [("leading-zero-bytes-", h[2:]), ("leading-zero-digits-", h.lstrip("0"))] * 2
+        elif h.startswith("0"):
+            alts += [("leading-zero-digits-", h[1:])]
+        if len(v) > 1:
+            alts += [("prefix", h[:-2]), ("suffix", h[2:]), ("blank-separated", " ".join("%02x" % b for b in v)), ("byte-order", bytes(v)[::-1].hex())]
+        if len(v) >= 1:
+            alts += [("decimal", str(int.from_bytes(v, "big")))]
+    elif t == "dtc":
+        c = v.trouble_code
+        alts = [("decimal", str(c)), ("no-0x", "%x" % c), ("leading-zero-digits+", "0x%06x" % c), ("leading-zero-digits+", "0x0%X" % c),
+                ("trailing-zero-digits+", "0x%x00" % c), ("short-name", str(v.short_name)), ("hash-prefix", "#%x" % c)]
+    elif t == "i":
+        alts = [("sign", "%+d" % v), ("leading-zero-digits+", "0%d" % v if v >= 0 else "-0%d" % -v), ("as-float", "%d.0" % v), ("as-float", "%de0" % v),
+                ("hex", hex(v)), ("no-0x", "%x" % v if v >= 0 else "-%x" % -v), ("trailing-zero-digits+", "%d0" % v)]
+    elif t == "b":
+        alts = [("case", str(v).lower()), ("case", str(v).upper()), ("as-int", str(int(v))), ("as-int", "%d.0" % v)]
+    elif t == "n":
+        alts = [("empty", ""), ("case", "none"), ("case", "NONE"), ("null", "null")]
+    elif t == "s":
+        alts = [("case", v.swapcase()), ("case", v.upper()), ("case", v.lower()), ("prefix", v[:-1]), ("extension", v + v[-1:]), ("hex-of-text", v.encode().hex()),
+                ("python-repr", repr(v))]
+        if v.strip().lstrip("+-").isdigit():
+            alts += [("leading-zero-digits+", "0" + v), ("as-float", v + ".0"), ("hex", hex(int(v)))]
+    else:
+        return None
+    alts = [a for a in alts if a[1] != (v.hex() if t in "yY" else None)]
+    what, e = rng.choice(alts)
+    _stat({"y": "bytes", "Y": "bytes"}.get(t, t), what)
+    return e
 
 
 PADS = [(" ", ""), ("", " "), ("  ", "  "), ("\t", ""), ("", "\n"), ("", "  ")]
@@ -350,6 +412,8 @@ def gen_param(rng, v, base, malformed, names, keymap=None):
     if targets and rng.random() < 0.7:
         sn, path, leaf = rng.choice(targets)
         exp = render_expected(rng, leaf)
+        if rng.random() < 0.22:
+            exp = alias_expected(rng, leaf) or exp
     else:
         sn = rng.choice([s["name"] for s in v["services"]] or names)
         path = rng.choice(paths)
@@ -662,7 +726,8 @@ XML_ALPHA = ["620105" "07abcd" "000123", "620106" "08abcd" "000123" "0907", "620
 XML_TARGETS = [("id", None), (None, "id"), (None, "info.type"), (None, "info.code"), ("dtc", None), (None, "items.type"), ("nrc", None),
                ("rsid", None), ("sid", None)]
 XML_ODD = [("info", None), (None, "id.x"), ("nope", None), ("items", None)]
-XML_EXP = ["5", "6", "7", "8", "9", "ABCD", "abcd", "00FF", "0x123", "0X123", "49", "17", "34", "16", "98", "127", "1", "x"]
+XML_EXP = ["5", "6", "7", "8", "9", "ABCD", "abcd", "00FF", "0x123", "0X123", "49", "17", "34", "16", "98", "127", "1", "x",
+           "ABCD00", "00ABCD", "AB", "FF", "00FF00", "0xABCD", "0x7", "07", "+5", "0x000123", "123"]
 
 
 def xml_no_such_service(rng, svcs, names_all):
@@ -723,10 +788,27 @@ XMLF_PATHS = [("stamp",), ("ratio",), ("scaled",), ("cal", "stamp"), ("cals", "s
               ("sid",), ("did",)]
 XMLF_EXP = ["1700000000.5", "1700000000", "1.7e9", "2.25", "0.1", "0.10000000149011612", "1", "1.0", "0", "-0.0", "inf", "nan", "x", "",
             "255", "5", "1e15", "1E+15"]
+
+
+# byte field identification through the real loader and the real decoder: byte fields of variable length (length prefixed; in a structure;
+# the rest of the message (MIN-MAX-LENGTH, END-OF-PDU); the items of a field). The responses hold values that differ only in their length
+# (zero bytes at either end, prefixes), the empty byte field and all-zero byte fields.
+def _bresp(did, lp, sn, tail):
+    lpd = lambda h: "%02x" % (len(h) // 2) + h  # noqa
+    return "62%02x" % did + lpd(lp) + lpd(sn) + ((tail[0] if tail else "") if did == 6 else "".join(lpd(h) for h in tail))
+
+
+XMLB_TUPLES = [("a1", "a100", ["a10000", "a1"]), ("a100", "a1", ["a1"]), ("00a1", "a1", [""]), ("", "00", ["0000", "00"]), ("a1", "a1", ["a1", "00a1"]),
+               ("ab12", "ab", ["ab1200"]), ("a10000", "00a1", ["a100", "a2"]), ("b2", "00b2", []), ("a2", "a1", ["a1b2", "b2"]),
+               ("0102030405060708", "01020304050607", ["0102030405060700"]), ("ff", "ff00", ["00ff", "ff", "ff00"])]
+XMLB_ALPHA = {did: [_bresp(did, *t) for t in XMLB_TUPLES] for did in (6, 7)}
+XMLB_PATHS = [("lp",), ("hw", "sn"), ("pn",), ("parts", "sn"), ("id",), ("info", "code"), ("dtc",), ("nrc",), ("sid",), ("did",)]
+XMLB_EXP = ["A1", "a1", "A100", "a10000", "00A1", "", "00", "0000", "AB12", "ab", "0xA1", "161", "B2", "00b2", "ff", "FF00", "5", "abcd", "ABCD00"]
 XML_FLAVOURS = {
     # name index -> DID; the service sets a layer may have; extra alphabet by kind of DID; target paths; fallback expected values
     "text": ([1, 2, 3], [[2], [2], [0, 2], [1, 2], [0], [0, 1]]),
     "float": ([4, 2, 5], [[0], [0], [0, 1], [0, 2], [2], [2, 0], [1, 2]]),
+    "bytes": ([6, 2, 7], [[0], [0], [0, 1], [0, 2], [2], [2], [2, 0], [1, 2]]),
 }
 
 
@@ -747,10 +829,12 @@ def gen_xmltext(rng, malformed, flavour="text"):
     for d in (4, 5):
         if d in have:
             pool = pool + XMLF_ALPHA[d]
-    if flavour == "float":
-        # responses that differ in a float only by a little (the same DID) must meet in one alphabet
+        if d + 2 in have:
+            pool = pool + XMLB_ALPHA[d + 2]
+    if flavour in ("float", "bytes"):
+        # responses that differ in a float only by a little / in a byte field only by its length (the same DID) must meet in one alphabet
         alpha = rng.sample(pool, min(len(pool), rng.choice([2, 3, 3, 4])))
-        paths, fallback = XMLF_PATHS, XMLF_EXP
+        paths, fallback = (XMLF_PATHS, XMLF_EXP) if flavour == "float" else (XMLB_PATHS, XMLB_EXP)
     else:
         alpha = rng.sample(pool, rng.choice([2, 2, 3]))
         paths, fallback = XMLT_PATHS, XMLT_EXP
@@ -762,12 +846,14 @@ def gen_xmltext(rng, malformed, flavour="text"):
         # a text leaf that cannot be written into an XML 1.0 document (control characters; \r is normalised by the XML
         # parser) cannot be an EXPECTED-VALUE
         targets = [t for t in candidate_targets(v, paths)
-                   if not (t[2][0] == "s" and any((ord(c) < 32 and c not in "\t\n") or ord(c) in (0x7f, 0xfffe, 0xffff) or 0xd800 <= ord(c) <= 0xdfff
-                                                  for c in t[2][1]))]
+                   if not (t[2][0] == "s" and not L.xml_text_ok(t[2][1]))]
         if flavour == "float":
             fl = [t for t in targets if t[2][0] == "f"]
             if fl:
                 targets = fl * 3 + targets       # mostly the float leaves
+        if flavour == "bytes":
+            fl = [t for t in targets if t[2][0] in "yY"]
+            targets = fl * 3 + targets           # mostly the byte fields
         pats = []
         for _ in range(rng.choice([0, 1, 1, 2, 3]) if kind == "ecu" else rng.choice([0, 1, 1, 1])):
             pat = []
@@ -775,12 +861,17 @@ def gen_xmltext(rng, malformed, flavour="text"):
                 if targets and rng.random() < 0.75:
                     sn, path, leaf = rng.choice(targets)
                     exp = render_expected(rng, leaf)
+                    if rng.random() < (0.35 if flavour == "bytes" else 0.15):
+                        a = alias_expected(rng, leaf)
+                        if a is not None and L.xml_text_ok(a):
+                            exp = a
                 else:
                     sn, path, exp = rng.choice(svcs)[0], rng.choice(paths), rng.choice(fallback)
                 if rng.random() < (0.4 if flavour == "text" else 0.05):
                     exp = pad_expected(rng, exp)
                 if malformed and rng.random() < 0.3:
-                    snref, pth = rng.choice(XML_ODD + [("name.x", None), (None, "sw"), (None, "tags"), (None, "cal"), (None, "cals"), ("cal.stamp", None)])
+                    snref, pth = rng.choice(XML_ODD + [("name.x", None), (None, "sw"), (None, "tags"), (None, "cal"), (None, "cals"), ("cal.stamp", None),
+                                                       (None, "hw"), (None, "parts"), ("hw.sn", None)])
                 elif len(path) == 1 and rng.random() < 0.6:
                     snref, pth = path[0], None
                 else:
@@ -879,6 +970,7 @@ def run(ctx):
     pending = []
     global _ROT
     _ROT = itertools.count()
+    GEN_STATS.clear()
     # (a) corpus
     for cfg0, ecu in CORPUS:
         try:
@@ -896,6 +988,8 @@ def run(ctx):
     # (b)+(c) object family: mostly-valid stream, malformed stream, float stream
     streams = [("obj", False, False, 4000 if big else 520), ("obj-malformed", True, False, 1600 if big else 210),
                ("obj-float", False, True, 1500 if big else 160)]
+    only = [f for f in os.environ.get("C14_FAMILIES", "").split(",") if f]      # diagnosis only: restrict the exploration to some families
+    streams = [x for x in streams if not only or x[0] in only]
     for fam, malformed, allow_float, count in streams:
         r = ctx.sub_rng(fam)
         for n in range(count):
@@ -913,14 +1007,16 @@ def run(ctx):
     # parameters *as written in the document*, the real matcher the loaded objects: the loader is part of the checked system
     xml_streams = [("xml", False, 900 if big else 110), ("xml-malformed", True, 350 if big else 45),
                    ("xml-text", False, 700 if big else 90), ("xml-text-malformed", True, 200 if big else 25),
-                   ("xml-float", False, 500 if big else 60), ("xml-float-malformed", True, 150 if big else 15)]
+                   ("xml-float", False, 500 if big else 60), ("xml-float-malformed", True, 150 if big else 15),
+                   ("xml-bytes", False, 300 if big else 60), ("xml-bytes-malformed", True, 80 if big else 15)]
+    xml_streams = [x for x in xml_streams if not only or x[0] in only]
     for fam, malformed, count in xml_streams:
         r = ctx.sub_rng(fam)
         for n in range(count):
             layers = None
             try:
-                if fam.startswith(("xml-text", "xml-float")):
-                    layers, alpha = gen_xmltext(r, malformed, "float" if "float" in fam else "text")
+                if fam.startswith(("xml-text", "xml-float", "xml-bytes")):
+                    layers, alpha = gen_xmltext(r, malformed, fam.split("-")[1])
                 else:
                     layers = gen_xml_layers(r, malformed)
                     alpha = None
@@ -948,6 +1044,8 @@ def run(ctx):
             if len(pending) > 4000:
                 flush(ctx, pending)
     flush(ctx, pending)
+    for (kind, what), k in sorted(GEN_STATS.items()):
+        ctx.histo("alias_expected_value", f"{kind}:{what}", k)
 
 
 def replay(ctx, data):
